@@ -6,6 +6,7 @@ import os
 from vlib import *
 
 
+THOROUGH_ROUNDS = 1      # repetitions of the conformance part in the thorough tier (fresh random draws each)
 def gen(backend, tables, forced=None):
     ops = [{"op": "info"}]
     if forced:
